@@ -17,6 +17,9 @@ pub struct Outcome {
     /// number of callback invocations recorded in extras during this call, and whether each saw span()/slice() == the match
     pub cb_calls: u8,
     pub cb_views_ok: bool,
+    /// span() seen by the last callback
+    pub cb_start: usize,
+    pub cb_end: usize,
 }
 
 pub trait Corpus {
@@ -27,7 +30,8 @@ pub trait Corpus {
 
 /// Extras used by callback definitions to record what the callbacks observed.
 #[derive(Default, Clone, Debug, PartialEq)]
-pub struct CbLog { pub calls: u8, pub views_ok: bool, pub last_start: usize, pub last_end: usize }
+pub struct CbLog { pub calls: u8, pub bad_views: bool, pub last_start: usize, pub last_end: usize }
+impl CbLog { pub fn summary(&self) -> (u8, bool, usize, usize) { (self.calls, !self.bad_views, self.last_start, self.last_end) } }
 
 #[macro_export]
 macro_rules! corpus_impl {
@@ -44,8 +48,8 @@ macro_rules! corpus_impl {
                 let views_ok = inside && lex.slice() == &input[sp.start..sp.end] && lex.remainder() == &input[sp.end..];
                 let (res, id) = match r { None => (0u8, 0u8), Some(Ok($t)) => (1, $vid), Some(Err($e)) => (2, $eid) };
                 let $x = &lex.extras;
-                let (cb_calls, cb_views_ok): (u8, bool) = $log;
-                $crate::corpus::Outcome { res, id, start: sp.start, end: sp.end, views_ok, cb_calls, cb_views_ok }
+                let (cb_calls, cb_views_ok, cb_start, cb_end): (u8, bool, usize, usize) = $log;
+                $crate::corpus::Outcome { res, id, start: sp.start, end: sp.end, views_ok, cb_calls, cb_views_ok, cb_start, cb_end }
             }
         }
     };
@@ -63,8 +67,8 @@ macro_rules! corpus_impl {
                 let views_ok = inside && lex.slice().as_bytes() == &input[sp.start..sp.end] && lex.remainder().as_bytes() == &input[sp.end..];
                 let (res, id) = match r { None => (0u8, 0u8), Some(Ok($t)) => (1, $vid), Some(Err($e)) => (2, $eid) };
                 let $x = &lex.extras;
-                let (cb_calls, cb_views_ok): (u8, bool) = $log;
-                $crate::corpus::Outcome { res, id, start: sp.start, end: sp.end, views_ok, cb_calls, cb_views_ok }
+                let (cb_calls, cb_views_ok, cb_start, cb_end): (u8, bool, usize, usize) = $log;
+                $crate::corpus::Outcome { res, id, start: sp.start, end: sp.end, views_ok, cb_calls, cb_views_ok, cb_start, cb_end }
             }
         }
     };
@@ -85,7 +89,7 @@ pub fn attempt_vs_spec_sk<T: Corpus, const N: usize>(input: &[u8; N], start: usi
         assume(valid_utf8(input));
         assume(is_boundary(input, start));
     }
-    let exp = expected_item(def, input, start, max_skips);
+    let (exp, exp_cbs, exp_cs, exp_ce) = expected_item_cb(def, input, start, max_skips);
     check!(exp != Exp::Ambiguous, "spec: two equal-priority patterns match the same longest prefix (derive accepted an ambiguous definition, or the corpus table is wrong)");
     let got = T::run(input, start, false);
     match exp {
@@ -104,7 +108,8 @@ pub fn attempt_vs_spec_sk<T: Corpus, const N: usize>(input: &[u8; N], start: usi
         }
         Exp::Err { eid, start: s, end: e } => {
             check!(got.res == 2, "C02: an error item is expected here");
-            check!(got.id == eid, "C02: error value");
+            let want = if eid == 0 { (def.default_err)(s, e) } else { eid };
+            check!(got.id == want, "C02/C13: error value (Default, or what the error callback / pattern callback supplied)");
             check!(got.start == s, "C02: the error span starts at the failed attempt's start");
             check!(got.end == e, "C02: error span ends before the first non-viable byte (>= 1 byte, rounded up to a char boundary)");
             if covers { cover!(true, "error produced"); }
@@ -113,6 +118,13 @@ pub fn attempt_vs_spec_sk<T: Corpus, const N: usize>(input: &[u8; N], start: usi
         Exp::Ambiguous => {}
     }
     check!(got.views_ok, "C05/C14: slice() and remainder() are the source at span()");
+    if def.log_callbacks {
+        check!(got.cb_calls == exp_cbs, "C13: a pattern callback runs exactly once for each match of its pattern that wins selection");
+        check!(got.cb_views_ok, "C13: inside a callback slice() is the source at span()");
+    }
+    if def.log_callbacks && exp_cbs > 0 {
+        check!(got.cb_start == exp_cs && got.cb_end == exp_ce, "C13: the callback observes span() equal to the match");
+    }
     if got.res != 0 {
         check!(got.start < got.end && got.end <= N, "C03: items are non-empty and inside the source");
     }
@@ -175,6 +187,57 @@ pub fn twins_agree<A: Corpus, B: Corpus, const N: usize>(input: &[u8; N], start:
     check!(a.views_ok && b.views_ok, "twins: slice()/remainder() consistent");
     cover!(a.res == 1, "twins: token");
     cover!(a.res == 2, "twins: error");
+}
+
+fn fill<const N: usize>(ctx: [Option<u8>; N]) -> [u8; N] {
+    let mut input = [0u8; N];
+    let mut i = 0;
+    while i < N {
+        match ctx[i] { Some(b) => { input[i] = b; } None => { input[i] = any(); } }
+        i += 1;
+    }
+    input
+}
+pub fn twins_agree_ctx<A: Corpus, B: Corpus, const N: usize>(ctx: [Option<u8>; N], start: usize, need_utf8: bool) {
+    let input = fill(ctx);
+    twins_agree::<A, B, N>(&input, start, need_utf8);
+}
+
+/// C12: the str-mode definition S and its utf8 = false twin B on the same valid UTF-8 text: same Ok tokens with the same
+/// spans; where S reports an error [p, r) (rounded up to a char boundary), B reports an error [p, q) with q <= r, and
+/// every B attempt started inside (q..r) is again an error ending at or before r - so the same bytes are covered by errors.
+pub fn modes_agree<S: Corpus, B: Corpus, const N: usize>(ctx: [Option<u8>; N], start: usize) {
+    let input = fill(ctx);
+    assume(valid_utf8(&input));
+    assume(is_boundary(&input, start));
+    let s = S::run(&input, start, false);
+    let b = B::run(&input, start, false);
+    check!(s.res == b.res, "C12: same kind of item in str mode and byte mode");
+    check!(s.start == b.start, "C12: same item start");
+    if s.res == 1 {
+        check!(s.id == b.id && s.end == b.end, "C12: same Ok token with the same span");
+        cover!(true, "modes: token");
+    }
+    if s.res == 2 {
+        check!(b.start < b.end && b.end <= s.end, "C12: the byte-mode error lies inside the str-mode error");
+        let mut k = 1;
+        while k <= 3 {
+            let pos = start + k;
+            if pos >= b.end && pos < s.end {
+                let again = B::run(&input, pos, false);
+                check!(again.res == 2 && again.start == pos && again.end <= s.end, "C12: bytes up to the str-mode error end are covered by byte-mode errors");
+                cover!(true, "modes: error split in byte mode");
+            }
+            k += 1;
+        }
+        cover!(true, "modes: error");
+    }
+    check!(s.views_ok && b.views_ok, "C12: slice()/remainder() consistent");
+}
+
+pub fn partial_ctx<T: Corpus, const N: usize, const K: usize>(ctx: [Option<u8>; N], start: usize) {
+    let input = fill(ctx);
+    partial_vs_full::<T, N, K>(&input, start);
 }
 
 /// C07: a partial lexer over input[..k] either commits the item the one-shot lexer yields, or returns None with an empty span
